@@ -11,7 +11,7 @@ COQ_TARGETS = ["theories/C02/Corr.vo"]
 COQ_CORR_MODULE = "Base.Str C02.Model C02.Spec C02.Corr"
 COQ_CASE_TYPE = "C02.Corr.case"
 COQ_CHECK = "C02.Corr.check_case"
-COQ_MODEL_OBS = "(fun c => C02.Corr.model_obs (fst c))"
+COQ_MODEL_OBS = "C02.Corr.model_obs_any"
 COQ_SHARD = 135
 DESIGN_REF = "§5 C02"
 TECHNIQUE = ("Coq proof over all interleavings (list (client*step), manifest.Update one atomic step, Commit split into begin + one step per "
@@ -24,14 +24,20 @@ LEVEL_NOTE = ("Trusted: Coq kernel, Go harness + Python glue. Modelled, not veri
               "is one atomic step; one updateManifest call is one atomic step because everything before the Update is client-local or writes "
               "content-addressed files nobody reads yet); SHA-512 collision-freeness (lock = (root, set of table names), table name = ordered "
               "chunk list); hasCache, conjoin (>256 tables), GC/prune (C05), appendix specs, AWS/blobstore manifests are outside the model. "
-              "ChunkJournal.Update has the same compare-lock-then-replace shape but the journaling store is not exercised (exclusive lock: one client).")
+              "Journaling store: second model (one writer holding the exclusive LOCK; ChunkJournal.Persist/Update; graceful close + reopen; a second "
+              "handle is read-only) with the same theorems and its own correspondence; crash recovery of the journal is C03's, the lagging backing "
+              "manifest file is not modelled. gcGen is constant in both models (Update rejecting a gcGen change is not modelled).")
 THEOREMS = ["commit_is_cas_refuted", "commit_is_cas_refuted_noop", "commit_is_cas_statement_false", "commit_is_cas_partial",
             "failure_changes_nothing", "root_history_linear", "root_changes_are_swaps", "ack_persist", "ack_persist_refuted",
-            "oracle_rejects_double", "oracle_rejects_noop"]
-REFUTED = ["commit_is_cas (full statement): witness_double, witness_noop", "ack_persist root part for the shortcut: witness_noop"]
+            "oracle_rejects_double", "oracle_rejects_noop",
+            "j_never_stale", "j_failure_changes_nothing", "j_commit_is_cas_refuted", "j_commit_is_cas_partial",
+            "j_root_history_linear", "j_ack_persist"]
+REFUTED = ["commit_is_cas (full statement): witness_double, witness_noop", "ack_persist root part for the shortcut: witness_noop",
+           "journaling store: commit_is_cas (full statement): [JCommit 3 3]"]
 RULE = ("1-3 clients on one directory, memtable capacity 1-4 chunks, up to 12 API calls: Put (own chunk ids, repeats allowed), Rebase, "
         "Commit(cur,last) with cur an own chunk (possibly never Put: dangling) or the caller's Root(), last the caller's Root() or an explicit "
-        "(possibly stale / wrong) root; non-trivial = at least one Commit; distinct by JSON")
+        "(possibly stale / wrong) root; plus journaling-store histories (one writer): Put / Rebase / Commit / Reopen (close + fresh journaling open) / "
+        "Probe (second handle while the writer is open); non-trivial = at least one Commit; distinct by JSON")
 ASSUMPTIONS = [
     "generated schedules never contain the two known deviations, which are replayed separately on every run (see 'explanation'): "
     "(1) two clients never commit the same (cur, table set): Put ids are disjoint per client and cur is an own chunk or the caller's Root() with last = Root(); "
@@ -40,9 +46,13 @@ ASSUMPTIONS = [
     "memTableSize = cap * 10 bytes with 10-byte chunks; cap >= 1",
     "API calls are executed sequentially in one goroutine (each call atomic at this granularity); sub-call interleavings are covered by the theorems only",
     "fewer than 256 tables (no conjoin); no GC / prune (C05)",
+    "journaling histories: one writer in one process, default memtable size (no overflow flush on Put), graceful Close before every reopen "
+    "(crash recovery is C03); an explicit last is never equal to cur (the shortcut deviation is replayed separately)",
+    "a spurious 100 ms flock timeout of fileManifest under load is retried by the harness (up to 5 times per case) and never reported as an observation",
 ]
 REQUIRED_TAGS = ["commit-ok-root-moves", "commit-ok-same-root", "commit-false", "dangling", "ok-after-foreign-commit",
-                 "noop-commit", "three-clients", "tables>=3"]
+                 "noop-commit", "three-clients", "tables>=3",
+                 "journal", "j-commit-ok", "j-commit-false", "j-dangling", "j-reopen", "j-probe-readonly", "j-noop-commit", "j-reopen-after-ack"]
 EXPLANATION = ""
 
 KEY_DOUBLE = "nbs.updateManifest:idempotent-double-success"
@@ -60,6 +70,10 @@ WITNESSES = [
      {"n": 2, "cap": 4, "univ": [1, 2, 5],
       "ops": [{"c": 0, "op": "put", "x": 1}, {"c": 0, "op": "commit", "cur": 1, "last": 0},
               {"c": 1, "op": "commit", "cur": 5, "last": 5}]}),
+    (KEY_NOOP,
+     "journaling store: Commit(x,x) by a writer with nothing novel returns true whatever the journal's root is (same shortcut)",
+     {"mode": "journal", "univ": [1, 2, 3],
+      "ops": [{"op": "put", "x": 1}, {"op": "reopen"}, {"op": "commit", "cur": 3, "last": 3}]}),
 ]
 
 
@@ -117,6 +131,38 @@ def gen_one(rng, tier):
     return {"n": n, "cap": cap, "univ": univ, "ops": ops}
 
 
+def gen_journal(rng):
+    univ = [1, 2, 3, 4, 5, 6]
+    ops = []
+    puts = []
+    n = rng.randint(4, 12)
+    while len(ops) < n:
+        k = rng.random()
+        if k < 0.35:
+            x = rng.choice(univ[:4])
+            puts.append(x)
+            ops.append({"op": "put", "x": x})
+        elif k < 0.75:
+            cur = rng.choice(puts) if puts and rng.random() < 0.8 else rng.choice(univ[:5])
+            m = rng.random()
+            if m < 0.55:
+                ops.append({"op": "commit", "cur": cur, "last": -1})
+            elif m < 0.8:
+                ops.append({"op": "commit", "cur": -1, "last": -1})
+            else:
+                last = rng.choice([0] + univ[:5])
+                while last == cur:
+                    last = rng.choice([0] + univ[:5])
+                ops.append({"op": "commit", "cur": cur, "last": last})
+        elif k < 0.8:
+            ops.append({"op": "rebase"})
+        elif k < 0.95:
+            ops.append({"op": "reopen"})
+        else:
+            ops.append({"op": "probe", "x": 6})
+    return {"mode": "journal", "univ": univ, "ops": ops}
+
+
 def gen_cases(rng, tier):
     n = 260 if tier == "quick" else 12000
     fixed = [
@@ -142,6 +188,19 @@ def gen_cases(rng, tier):
     cases = list(fixed)
     while len(cases) < n + len(fixed):
         cases.append(gen_one(rng, tier))
+    # journaling store
+    cases.append({"mode": "journal", "univ": [1, 2, 3, 4, 5], "ops": [
+        {"op": "probe", "x": 5}, {"op": "put", "x": 1}, {"op": "commit", "cur": 1, "last": -1}, {"op": "put", "x": 2},
+        {"op": "probe", "x": 5}, {"op": "commit", "cur": 3, "last": -1}, {"op": "reopen"}, {"op": "put", "x": 3}, {"op": "reopen"},
+        {"op": "commit", "cur": 2, "last": 0}, {"op": "put", "x": 1}, {"op": "commit", "cur": -1, "last": -1}, {"op": "rebase"},
+        {"op": "commit", "cur": 2, "last": -1}, {"op": "reopen"}, {"op": "probe", "x": 5}]})
+    # a journal that exists but was never committed: Close fails ("Lock hash cannot be empty"), the chunk stays in the journal
+    cases.append({"mode": "journal", "univ": [1, 2, 3], "ops": [
+        {"op": "put", "x": 1}, {"op": "commit", "cur": 2, "last": -1}, {"op": "reopen"}, {"op": "put", "x": 2},
+        {"op": "commit", "cur": 1, "last": -1}, {"op": "commit", "cur": 2, "last": -1}, {"op": "reopen"}]})
+    nj = 70 if tier == "quick" else 3000
+    for _ in range(nj):
+        cases.append(gen_journal(rng))
     return cases
 
 
@@ -169,11 +228,30 @@ def coq_input(case):
         case["n"], case["cap"], _nl(case["univ"]), cq_list(_op(o) for o in case["ops"]))
 
 
-def coq_case(case, out):
-    """Compact transport form (Corr.csobs): table set / Has set only when they changed since the previous step."""
+def _jop(o):
+    if o["op"] == "put":
+        return "(JAPut %d)" % o["x"]
+    if o["op"] == "commit":
+        return "(JACommit %s %s)" % (_rref(o["cur"]), _rref(o["last"]))
+    return {"rebase": "JARebase", "reopen": "JAReopen", "probe": "JAProbe"}[o["op"]]
+
+
+def coq_jcase(case, out):
+    inp = "(Build_jinput %s %s)" % (_nl(case["univ"]), cq_list(_jop(o) for o in case["ops"]))
     o = (out or {}).get("obs")
     if o is None:
-        return "(%s, [])" % coq_input(case)   # no observation: disagrees with every model run and fails the oracle
+        return "(CJrn %s [])" % inp
+    steps = ["(JK %d %d %s %s)" % (s["res"], s["croot"], _nl(s["has"] or []), "true" if s.get("ro") else "false") for s in o["steps"]]
+    return "(CJrn %s %s)" % (inp, cq_list(steps))
+
+
+def coq_case(case, out):
+    """Compact transport form (Corr.csobs): table set / Has set only when they changed since the previous step."""
+    if case.get("mode") == "journal":
+        return coq_jcase(case, out)
+    o = (out or {}).get("obs")
+    if o is None:
+        return "(CDir %s [])" % coq_input(case)   # no observation: disagrees with every model run and fails the oracle
     steps = []
     pspecs, phas = [], []
     for s in o["steps"]:
@@ -182,7 +260,7 @@ def coq_case(case, out):
         hs = "None" if has == phas else "(Some %s)" % _nl(has)
         steps.append("(K %d %d %d %d %s %s)" % (s["res"], s["croot"], s["droot"], s["froot"], sp, hs))
         pspecs, phas = specs, has
-    return "(%s, %s)" % (coq_input(case), cq_list(steps))
+    return "(CDir %s %s)" % (coq_input(case), cq_list(steps))
 
 
 # ---------------------------------------------------------------- history analysis (distribution, known patterns)
@@ -207,7 +285,56 @@ def _canon(specs):
     return sorted(tuple(t) for t in specs)
 
 
+def _jwalk(case, out):
+    o = (out or {}).get("obs")
+    if not o:
+        return
+    reg, self_ = 0, 0
+    for op, s in zip(case["ops"], o["steps"]):
+        info = {"reg": reg, "self": self_}
+        if op["op"] == "commit":
+            info["cur"] = self_ if op["cur"] < 0 else op["cur"]
+            info["last"] = self_ if op["last"] < 0 else op["last"]
+        yield op, s, info
+        if op["op"] == "commit" and s["res"] == 0:
+            reg = info["cur"]
+        if op["op"] != "probe":
+            self_ = s["croot"]
+
+
+def jclassify(case, out):
+    t = ["journal"]
+    acked = False
+    for op, s, b in _jwalk(case, out):
+        if op["op"] == "commit":
+            if s["res"] == 0:
+                t.append("j-commit-ok")
+                acked = True
+                if b["cur"] == b["last"]:
+                    t.append("j-noop-commit")
+            elif s["res"] == 1:
+                t.append("j-commit-false")
+            elif s["res"] == 2:
+                t.append("j-dangling")
+            else:
+                t.append("j-commit-error")
+        elif op["op"] == "reopen":
+            t.append("j-reopen")
+            if acked:
+                t.append("j-reopen-after-ack")
+            if s["res"] != 0:
+                t.append("j-close-error")
+        elif op["op"] == "probe":
+            t.append("j-probe-readonly" if s.get("ro") and s["res"] == 4 else "j-probe-other")
+    for k in patterns(case, out):
+        t.append("pattern:" + k)
+    return sorted(set(t))
+
+
 def patterns(case, out):
+    if case.get("mode") == "journal":
+        return {KEY_NOOP for op, s, b in _jwalk(case, out)
+                if op["op"] == "commit" and s["res"] == 0 and b["cur"] == b["last"] and b["reg"] != b["last"]}
     found = set()
     oks = []
     for op, s, b in _walk(case, out):
@@ -231,6 +358,8 @@ def classify(case, out):
     o = (out or {}).get("obs")
     if o is None:
         return ["panic"]
+    if case.get("mode") == "journal":
+        return jclassify(case, out)
     t = ["clients=%d" % case["n"], "cap=%d" % case["cap"]]
     if case["n"] == 3:
         t.append("three-clients")
@@ -281,13 +410,21 @@ def shrink_candidates(case):
     ops = case["ops"]
     for i in range(len(ops)):
         yield dict(case, ops=ops[:i] + ops[i + 1:])
-    if case["n"] > 1 and all(o["c"] < case["n"] - 1 for o in ops):
+    if case.get("mode") != "journal" and case["n"] > 1 and all(o["c"] < case["n"] - 1 for o in ops):
         yield dict(case, n=case["n"] - 1)
 
 
 def neighbours(case, rng):
     out = []
     ops = case["ops"]
+    if case.get("mode") == "journal":
+        for i in range(len(ops) + 1):
+            for extra in ({"op": "reopen"}, {"op": "rebase"}, {"op": "put", "x": 1}, {"op": "commit", "cur": -1, "last": -1}):
+                out.append(dict(case, ops=ops[:i] + [extra] + ops[i:]))
+        for i in range(len(ops)):
+            out.append(dict(case, ops=ops[:i] + ops[i + 1:]))
+        rng.shuffle(out)
+        return out[:150]
     for i in range(len(ops) + 1):
         for c in range(case["n"]):
             out.append(dict(case, ops=ops[:i] + [{"c": c, "op": "rebase"}] + ops[i:]))
@@ -299,35 +436,28 @@ def neighbours(case, rng):
 
 
 def search_cases(rng):
-    return [gen_one(rng, "quick") for _ in range(150)]
+    return [gen_one(rng, "quick") for _ in range(110)] + [gen_journal(rng) for _ in range(40)]
 
 
 # ---------------------------------------------------------------- implementation run + witness replay
 def run_impl(ctx, binary, cases):
-    """Runs the generated cases, then replays the refutation witnesses of Proofs.v on the real code (every run).
-    A witness on which the implementation still shows exactly the modelled deviation (model agrees, exact-CAS oracle
-    false: code 2) is reported as KNOWN-FINDING and kept out of the case list; any other outcome is appended to
-    the cases so that the generic machinery reports it (model stale / different violation)."""
+    """Runs the generated cases and, on every run, replays the refutation witnesses of Proofs.v on the real code.
+    The witness cases are appended to the case list: the exact-CAS oracle is false on them as long as the
+    implementation shows the deviation, and the generic machinery reports that as KNOWN-FINDING only while the
+    matching entry of known_findings.json is open (match_known); otherwise it is a VIOLATION. If the implementation
+    stops showing a deviation the model no longer corresponds on the witness and that is reported too."""
     global EXPLANATION
     outs = vlib.run_harness(binary, HARNESS_RUNNER, cases, timeout=1800)
     wcases = [w[2] for w in WITNESSES]
     wouts = vlib.run_harness(binary, HARNESS_RUNNER, wcases, timeout=300)
-    codes = vlib.eval_cases(ctx, wcases, wouts, tag="witness")
     notes = []
     for j, (key, what, wc) in enumerate(WITNESSES):
-        code = codes.get(j, 0)
         seen = key in patterns(wc, wouts[j])
-        if code == 2 and seen:
-            listed = any(f.get("key") == key and str(f.get("status", "")).startswith("open") for f in vlib.load_known(ID))
-            if key not in ctx.known_seen:
-                ctx.known_seen.append(key)
-            print("KNOWN-FINDING: property=%s %s [key=%s%s]" % (ID, what, key, "" if listed else "; not yet listed in known_findings.json"))
-            notes.append("witness %s: REPRODUCED on the real code (model agrees, exact-CAS oracle false); impl results %s"
-                         % (key, [s["res"] for s in wouts[j]["obs"]["steps"]]))
-        else:
-            notes.append("witness %s: code=%d pattern_seen=%s -> appended to the cases for the generic verdict" % (key, code, seen))
-            cases.append(wc)
-            outs.append(wouts[j])
+        res = [s["res"] for s in (wouts[j].get("obs") or {}).get("steps", [])]
+        notes.append("witness %s%s: %s on the real code; impl results %s"
+                     % (key, " (journal)" if wc.get("mode") == "journal" else "", "REPRODUCED" if seen else "NOT reproduced", res))
+        cases.append(wc)
+        outs.append(wouts[j])
     EXPLANATION = " | ".join(notes)
     ctx.log("witness replay: " + EXPLANATION)
     return outs
